@@ -42,6 +42,20 @@ pub enum Call {
     IncB,
     /// reset() of a (possibly finished) bar
     Reset,
+    /// yield until a frame has been painted since this call started (someone else must paint it);
+    /// time goes by while waiting (the clock is read once per yield)
+    AwaitFrame,
+    /// one second goes by (200 clock readings of 5 ms)
+    ClockBurn,
+    /// reset_eta() (leaves the position alone)
+    ResetEta,
+    /// set_message("a\tb") / set_prefix("p\tq") / set_tab_width(2)
+    MsgTab,
+    PrefixTab,
+    TabWidth2,
+    /// set_draw_target(hidden) on bar a / a look at is_hidden() that remembers the terminal call count
+    SetHidden,
+    ObserveHidden,
     /// set_draw_target(terminal) on bar a / MultiProgress::add(bar a)
     SetTarget,
     MpAddSelf,
@@ -63,6 +77,8 @@ pub enum Share {
 
 #[derive(Clone, Debug)]
 pub struct Program {
+    /// bar a draws on a rate-limited target (20 Hz) instead of an unlimited one
+    pub hz: bool,
     /// bar a is created with a hidden target and gets its terminal (or its MultiProgress) later,
     /// through `Call::SetTarget` / `Call::MpAddSelf`
     pub start_hidden: bool,
@@ -124,7 +140,7 @@ pub fn programs_for(family: &str, tier: &str) -> Vec<Program> {
                     // all unordered pairs of single calls
                     for i in 0..alpha.len() {
                         for j in i..alpha.len() {
-                            v.push(Program { start_hidden: false, no_len: false, family: "C08", multi, ticker, share: Share::Clone, threads: vec![vec![alpha[i]], vec![alpha[j]]] });
+                            v.push(Program { hz: false, start_hidden: false, no_len: false, family: "C08", multi, ticker, share: Share::Clone, threads: vec![vec![alpha[i]], vec![alpha[j]]] });
                         }
                     }
                     if thorough {
@@ -133,7 +149,7 @@ pub fn programs_for(family: &str, tier: &str) -> Vec<Program> {
                         for &a in &two {
                             for &b in &two {
                                 for &c in &alpha {
-                                    v.push(Program { start_hidden: false, no_len: false, family: "C08", multi, ticker, share: Share::Clone, threads: vec![vec![a, b], vec![c]] });
+                                    v.push(Program { hz: false, start_hidden: false, no_len: false, family: "C08", multi, ticker, share: Share::Clone, threads: vec![vec![a, b], vec![c]] });
                                 }
                             }
                         }
@@ -142,8 +158,8 @@ pub fn programs_for(family: &str, tier: &str) -> Vec<Program> {
             }
             // a tick that takes longer than the tick interval (clock advances on every reading)
             for &c in &[Call::Disable, Call::Enable, Call::Finish, Call::DropOwn, Call::Tick, Call::Update] {
-                v.push(Program { start_hidden: false, no_len: false, family: "C08", multi: false, ticker: false, share: Share::Clone, threads: vec![vec![Call::EnableShort], vec![c]] });
-                v.push(Program { start_hidden: false, no_len: false, family: "C08", multi: false, ticker: false, share: Share::Clone, threads: vec![vec![Call::EnableShort, c]] });
+                v.push(Program { hz: false, start_hidden: false, no_len: false, family: "C08", multi: false, ticker: false, share: Share::Clone, threads: vec![vec![Call::EnableShort], vec![c]] });
+                v.push(Program { hz: false, start_hidden: false, no_len: false, family: "C08", multi: false, ticker: false, share: Share::Clone, threads: vec![vec![Call::EnableShort, c]] });
             }
             // three threads, calls that touch the ticker slot or join
             let slot: Vec<Call> = vec![Call::Update, Call::Tick, Call::Enable, Call::Disable, Call::Finish, Call::DropOwn];
@@ -152,33 +168,33 @@ pub fn programs_for(family: &str, tier: &str) -> Vec<Program> {
                     for i in 0..slot.len() {
                         for j in i..slot.len() {
                             for k in j..slot.len() {
-                                v.push(Program { start_hidden: false, no_len: false, family: "C08", multi: false, ticker, share: Share::Clone, threads: vec![vec![slot[i]], vec![slot[j]], vec![slot[k]]] });
+                                v.push(Program { hz: false, start_hidden: false, no_len: false, family: "C08", multi: false, ticker, share: Share::Clone, threads: vec![vec![slot[i]], vec![slot[j]], vec![slot[k]]] });
                             }
                         }
                     }
                 }
             } else {
                 for &(a, b, c) in &[(Call::Update, Call::Disable, Call::Tick), (Call::Enable, Call::Disable, Call::Finish), (Call::Enable, Call::Enable, Call::DropOwn), (Call::Update, Call::Enable, Call::Finish)] {
-                    v.push(Program { start_hidden: false, no_len: false, family: "C08", multi: false, ticker: true, share: Share::Clone, threads: vec![vec![a], vec![b], vec![c]] });
+                    v.push(Program { hz: false, start_hidden: false, no_len: false, family: "C08", multi: false, ticker: true, share: Share::Clone, threads: vec![vec![a], vec![b], vec![c]] });
                 }
             }
             // liveness of a (re-)enabled ticker after histories that let an earlier ticker thread exit on
             // its own: the bar must be redrawn without manual ticks after the last enable call
             for en in [Call::Enable, Call::EnableShort] {
                 for hist in [vec![en, Call::AwaitTick], vec![en, Call::Finish, Call::Reset, en, Call::AwaitTick], vec![en, Call::Disable, en, Call::AwaitTick], vec![en, Call::Abandon, Call::Reset, en, Call::AwaitTick], vec![en, en, Call::AwaitTick], vec![en, Call::Reset, en, Call::AwaitTick]] {
-                    v.push(Program { start_hidden: false, no_len: false, family: "C08", multi: false, ticker: false, share: Share::Clone, threads: vec![hist.clone()] });
+                    v.push(Program { hz: false, start_hidden: false, no_len: false, family: "C08", multi: false, ticker: false, share: Share::Clone, threads: vec![hist.clone()] });
                     if en == Call::Enable {
-                        v.push(Program { start_hidden: false, no_len: false, family: "C08", multi: true, ticker: false, share: Share::Clone, threads: vec![hist] });
+                        v.push(Program { hz: false, start_hidden: false, no_len: false, family: "C08", multi: true, ticker: false, share: Share::Clone, threads: vec![hist] });
                     }
                 }
-                v.push(Program { start_hidden: false, no_len: false, family: "C08", multi: false, ticker: true, share: Share::Clone, threads: vec![vec![Call::Finish, Call::Reset, en, Call::AwaitTick]] });
+                v.push(Program { hz: false, start_hidden: false, no_len: false, family: "C08", multi: false, ticker: true, share: Share::Clone, threads: vec![vec![Call::Finish, Call::Reset, en, Call::AwaitTick]] });
                 // steady tick enabled while the bar is still hidden; it gets its terminal / its MultiProgress afterwards
-                v.push(Program { start_hidden: true, no_len: false, family: "C08", multi: false, ticker: false, share: Share::Clone, threads: vec![vec![en, Call::SetTarget, Call::AwaitTick]] });
-                v.push(Program { start_hidden: true, no_len: false, family: "C08", multi: false, ticker: false, share: Share::Clone, threads: vec![vec![en], vec![Call::SetTarget, Call::AwaitTick]] });
-                v.push(Program { start_hidden: true, no_len: false, family: "C08", multi: true, ticker: false, share: Share::Clone, threads: vec![vec![en, Call::MpAddSelf, Call::AwaitTick]] });
+                v.push(Program { hz: false, start_hidden: true, no_len: false, family: "C08", multi: false, ticker: false, share: Share::Clone, threads: vec![vec![en, Call::SetTarget, Call::AwaitTick]] });
+                v.push(Program { hz: false, start_hidden: true, no_len: false, family: "C08", multi: false, ticker: false, share: Share::Clone, threads: vec![vec![en], vec![Call::SetTarget, Call::AwaitTick]] });
+                v.push(Program { hz: false, start_hidden: true, no_len: false, family: "C08", multi: true, ticker: false, share: Share::Clone, threads: vec![vec![en, Call::MpAddSelf, Call::AwaitTick]] });
                 // (finish and reset stay in one thread: the harness' finish_returned flag is only
                 // meaningful when reset() is ordered after finish() by the program itself)
-                v.push(Program { start_hidden: false, no_len: false, family: "C08", multi: false, ticker: true, share: Share::Clone, threads: vec![vec![Call::Tick], vec![Call::Finish, Call::Reset, en, Call::AwaitTick]] });
+                v.push(Program { hz: false, start_hidden: false, no_len: false, family: "C08", multi: false, ticker: true, share: Share::Clone, threads: vec![vec![Call::Tick], vec![Call::Finish, Call::Reset, en, Call::AwaitTick]] });
             }
         }
         "L07" => {
@@ -186,9 +202,9 @@ pub fn programs_for(family: &str, tier: &str) -> Vec<Program> {
             for share in [Share::Clone, Share::ArcRef] {
                 for i in 0..calls.len() {
                     for j in i..calls.len() {
-                        v.push(Program { start_hidden: false, no_len: false, family: "L07", multi: false, ticker: false, share, threads: vec![vec![calls[i]], vec![calls[j]]] });
+                        v.push(Program { hz: false, start_hidden: false, no_len: false, family: "L07", multi: false, ticker: false, share, threads: vec![vec![calls[i]], vec![calls[j]]] });
                         if thorough || (i == 0 && j == 2) || (i == 1 && j == 3) {
-                            v.push(Program { start_hidden: false, no_len: false, family: "L07", multi: false, ticker: false, share, threads: vec![vec![calls[i], calls[j]], vec![calls[j], calls[i]]] });
+                            v.push(Program { hz: false, start_hidden: false, no_len: false, family: "L07", multi: false, ticker: false, share, threads: vec![vec![calls[i], calls[j]], vec![calls[j], calls[i]]] });
                         }
                     }
                 }
@@ -197,9 +213,9 @@ pub fn programs_for(family: &str, tier: &str) -> Vec<Program> {
                     if !thorough && n3 > 0 {
                         continue;
                     }
-                    v.push(Program { start_hidden: false, no_len: false, family: "L07", multi: false, ticker: false, share, threads: vec![vec![a], vec![b], vec![c]] });
+                    v.push(Program { hz: false, start_hidden: false, no_len: false, family: "L07", multi: false, ticker: false, share, threads: vec![vec![a], vec![b], vec![c]] });
                     if thorough {
-                        v.push(Program { start_hidden: false, no_len: false, family: "L07", multi: false, ticker: false, share, threads: vec![vec![a, b], vec![b, c], vec![c, a]] });
+                        v.push(Program { hz: false, start_hidden: false, no_len: false, family: "L07", multi: false, ticker: false, share, threads: vec![vec![a, b], vec![b, c], vec![c, a]] });
                     }
                 }
             }
@@ -207,17 +223,55 @@ pub fn programs_for(family: &str, tier: &str) -> Vec<Program> {
             // them must survive exactly like increments racing with each other
             for share in [Share::Clone, Share::ArcRef] {
                 for fin in [Call::Finish, Call::Abandon] {
-                    v.push(Program { start_hidden: false, no_len: true, family: "L07", multi: false, ticker: false, share, threads: vec![vec![fin], vec![Call::Inc(1)]] });
-                    v.push(Program { start_hidden: false, no_len: true, family: "L07", multi: false, ticker: false, share, threads: vec![vec![fin], vec![Call::Inc(1), Call::Dec(3)]] });
+                    v.push(Program { hz: false, start_hidden: false, no_len: true, family: "L07", multi: false, ticker: false, share, threads: vec![vec![fin], vec![Call::Inc(1)]] });
+                    v.push(Program { hz: false, start_hidden: false, no_len: true, family: "L07", multi: false, ticker: false, share, threads: vec![vec![fin], vec![Call::Inc(1), Call::Dec(3)]] });
                     if thorough {
-                        v.push(Program { start_hidden: false, no_len: true, family: "L07", multi: false, ticker: false, share, threads: vec![vec![fin], vec![Call::Inc(1)], vec![Call::Inc(4)]] });
-                        v.push(Program { start_hidden: false, no_len: true, family: "L07", multi: true, ticker: false, share, threads: vec![vec![fin], vec![Call::Inc(1)]] });
+                        v.push(Program { hz: false, start_hidden: false, no_len: true, family: "L07", multi: false, ticker: false, share, threads: vec![vec![fin], vec![Call::Inc(1)], vec![Call::Inc(4)]] });
+                        v.push(Program { hz: false, start_hidden: false, no_len: true, family: "L07", multi: true, ticker: false, share, threads: vec![vec![fin], vec![Call::Inc(1)]] });
                     }
                 }
             }
+            // reset_eta()/reset leave the position to the increments racing with them
+            for share in [Share::Clone, Share::ArcRef] {
+                v.push(Program { hz: false, start_hidden: false, no_len: false, family: "L07", multi: false, ticker: false, share, threads: vec![vec![Call::ResetEta], vec![Call::Inc(1)]] });
+                v.push(Program { hz: false, start_hidden: false, no_len: false, family: "L07", multi: false, ticker: false, share, threads: vec![vec![Call::ResetEta, Call::Inc(2)], vec![Call::Inc(1), Call::Dec(3)]] });
+            }
             // increments while a ticker is installed and while the bar sits in a MultiProgress
-            v.push(Program { start_hidden: false, no_len: false, family: "L07", multi: true, ticker: false, share: Share::Clone, threads: vec![vec![Call::Inc(1), Call::Inc(2)], vec![Call::Inc(4)]] });
-            v.push(Program { start_hidden: false, no_len: false, family: "L07", multi: false, ticker: true, share: Share::Clone, threads: vec![vec![Call::Inc(1)], vec![Call::Inc(4), Call::Dec(2)]] });
+            v.push(Program { hz: false, start_hidden: false, no_len: false, family: "L07", multi: true, ticker: false, share: Share::Clone, threads: vec![vec![Call::Inc(1), Call::Inc(2)], vec![Call::Inc(4)]] });
+            v.push(Program { hz: false, start_hidden: false, no_len: false, family: "L07", multi: false, ticker: true, share: Share::Clone, threads: vec![vec![Call::Inc(1)], vec![Call::Inc(4), Call::Dec(2)]] });
+        }
+        "L05" => {
+            // a 1 ms steady ticker on a 20 Hz target while every clock reading takes 5 ms: after a direct
+            // update has been painted, the ticker's requests are painted again once the interval has passed.
+            // (Clock readings are invisible to loom: the set_message before the second of virtual time
+            // gives the explorer a lock to order the start of the ticker thread against.)
+            v.push(Program { hz: true, start_hidden: false, no_len: false, family: "L07", multi: false, ticker: false, share: Share::Clone, threads: vec![vec![Call::EnableShort, Call::Msg, Call::AwaitFrame]] });
+            v.push(Program { hz: true, start_hidden: false, no_len: false, family: "L07", multi: false, ticker: false, share: Share::Clone, threads: vec![vec![Call::EnableShort, Call::Msg, Call::ClockBurn, Call::Msg, Call::AwaitFrame]] });
+            v.push(Program { hz: true, start_hidden: false, no_len: false, family: "L07", multi: false, ticker: false, share: Share::Clone, threads: vec![vec![Call::EnableShort, Call::Msg, Call::ClockBurn, Call::Inc(1), Call::ClockBurn, Call::Msg, Call::AwaitFrame, Call::AwaitFrame]] });
+            v.push(Program { hz: true, start_hidden: false, no_len: false, family: "L07", multi: false, ticker: false, share: Share::Clone, threads: vec![vec![Call::EnableShort, Call::AwaitFrame, Call::Inc(1), Call::AwaitFrame]] });
+        }
+        "L06" => {
+            // hiding a member of a visible MultiProgress while another thread looks at it
+            for obs in [vec![Call::ObserveHidden], vec![Call::ObserveHidden, Call::ObserveHidden], vec![Call::Tick, Call::ObserveHidden]] {
+                v.push(Program { hz: false, start_hidden: false, no_len: false, family: "L07", multi: true, ticker: false, share: Share::Clone, threads: vec![vec![Call::SetHidden], obs.clone()] });
+                v.push(Program { hz: false, start_hidden: false, no_len: false, family: "L07", multi: false, ticker: false, share: Share::Clone, threads: vec![vec![Call::SetHidden], obs] });
+            }
+            v.push(Program { hz: false, start_hidden: false, no_len: false, family: "L07", multi: true, ticker: false, share: Share::Clone, threads: vec![vec![Call::MpRemove], vec![Call::ObserveHidden]] });
+            if thorough {
+                v.push(Program { hz: false, start_hidden: false, no_len: false, family: "L07", multi: true, ticker: false, share: Share::Clone, threads: vec![vec![Call::SetHidden], vec![Call::ObserveHidden], vec![Call::Inc(1)]] });
+            }
+        }
+        "L16" => {
+            // texts with tabs set while another thread changes the tab width
+            for t in [Call::MsgTab, Call::PrefixTab] {
+                for multi in [false, true] {
+                    v.push(Program { hz: false, start_hidden: false, no_len: false, family: "L07", multi, ticker: false, share: Share::Clone, threads: vec![vec![t], vec![Call::TabWidth2]] });
+                    v.push(Program { hz: false, start_hidden: false, no_len: false, family: "L07", multi, ticker: false, share: Share::Clone, threads: vec![vec![t, Call::Tick], vec![Call::TabWidth2, Call::Tick]] });
+                }
+            }
+            if thorough {
+                v.push(Program { hz: false, start_hidden: false, no_len: false, family: "L07", multi: false, ticker: false, share: Share::Clone, threads: vec![vec![Call::MsgTab], vec![Call::TabWidth2], vec![Call::PrefixTab]] });
+            }
         }
         "L17" => {
             // adaptors on clones of one length-less bar (exhausting an iterator finishes the bar, which
@@ -229,36 +283,36 @@ pub fn programs_for(family: &str, tier: &str) -> Vec<Program> {
                         if calls[i] == Call::Inc(1) && calls[j] == Call::Inc(1) {
                             continue;
                         }
-                        v.push(Program { start_hidden: false, no_len: true, family: "L07", multi: false, ticker: false, share, threads: vec![vec![calls[i]], vec![calls[j]]] });
+                        v.push(Program { hz: false, start_hidden: false, no_len: true, family: "L07", multi: false, ticker: false, share, threads: vec![vec![calls[i]], vec![calls[j]]] });
                         if thorough {
-                            v.push(Program { start_hidden: false, no_len: true, family: "L07", multi: false, ticker: false, share, threads: vec![vec![calls[i], calls[j]], vec![calls[j]]] });
+                            v.push(Program { hz: false, start_hidden: false, no_len: true, family: "L07", multi: false, ticker: false, share, threads: vec![vec![calls[i], calls[j]], vec![calls[j]]] });
                         }
                     }
                 }
                 if thorough {
-                    v.push(Program { start_hidden: false, no_len: true, family: "L07", multi: false, ticker: false, share, threads: vec![vec![Call::Iter2], vec![Call::Read3], vec![Call::Iter2]] });
+                    v.push(Program { hz: false, start_hidden: false, no_len: true, family: "L07", multi: false, ticker: false, share, threads: vec![vec![Call::Iter2], vec![Call::Read3], vec![Call::Iter2]] });
                 }
             }
-            v.push(Program { start_hidden: false, no_len: true, family: "L07", multi: true, ticker: false, share: Share::Clone, threads: vec![vec![Call::Iter2], vec![Call::Read3]] });
+            v.push(Program { hz: false, start_hidden: false, no_len: true, family: "L07", multi: true, ticker: false, share: Share::Clone, threads: vec![vec![Call::Iter2], vec![Call::Read3]] });
         }
         "L02" => {
             let calls: Vec<Call> = vec![Call::Inc(1), Call::Tick, Call::Msg, Call::Finish, Call::DropOwn, Call::MpPrintln, Call::MpRemove, Call::MpAdd, Call::MpClear, Call::IncB, Call::TickB];
             for i in 0..calls.len() {
                 for j in i..calls.len() {
-                    v.push(Program { start_hidden: false, no_len: false, family: "L02", multi: true, ticker: false, share: Share::Clone, threads: vec![vec![calls[i]], vec![calls[j]]] });
+                    v.push(Program { hz: false, start_hidden: false, no_len: false, family: "L02", multi: true, ticker: false, share: Share::Clone, threads: vec![vec![calls[i]], vec![calls[j]]] });
                 }
             }
             // suspending the whole MultiProgress while another thread updates a member
             for &o in &[Call::Tick, Call::Inc(1), Call::IncB, Call::Finish, Call::MpPrintln] {
-                v.push(Program { start_hidden: false, no_len: false, family: "L02", multi: true, ticker: false, share: Share::Clone, threads: vec![vec![Call::MpSuspendWrite], vec![o]] });
-                v.push(Program { start_hidden: false, no_len: false, family: "L02", multi: true, ticker: false, share: Share::Clone, threads: vec![vec![Call::SuspendWrite], vec![o]] });
+                v.push(Program { hz: false, start_hidden: false, no_len: false, family: "L02", multi: true, ticker: false, share: Share::Clone, threads: vec![vec![Call::MpSuspendWrite], vec![o]] });
+                v.push(Program { hz: false, start_hidden: false, no_len: false, family: "L02", multi: true, ticker: false, share: Share::Clone, threads: vec![vec![Call::SuspendWrite], vec![o]] });
             }
             let two: Vec<Call> = vec![Call::Inc(1), Call::IncB, Call::Finish, Call::MpPrintln, Call::DropOwn];
             for &a in &two {
                 for &b in &two {
                     for &c in &two {
                         if thorough || (a != b) {
-                            v.push(Program { start_hidden: false, no_len: false, family: "L02", multi: true, ticker: false, share: Share::Clone, threads: vec![vec![a, b], vec![c]] });
+                            v.push(Program { hz: false, start_hidden: false, no_len: false, family: "L02", multi: true, ticker: false, share: Share::Clone, threads: vec![vec![a, b], vec![c]] });
                         }
                     }
                 }
@@ -272,7 +326,7 @@ pub fn programs_for(family: &str, tier: &str) -> Vec<Program> {
                         let (a, b, c) = (three[i], three[j], three[k]);
                         let quick_pick = i == 0 && j == 1 && k >= 2;
                         if thorough || quick_pick {
-                            v.push(Program { start_hidden: false, no_len: false, family: "L02", multi: true, ticker: false, share: Share::Clone, threads: vec![vec![a], vec![b], vec![c]] });
+                            v.push(Program { hz: false, start_hidden: false, no_len: false, family: "L02", multi: true, ticker: false, share: Share::Clone, threads: vec![vec![a], vec![b], vec![c]] });
                         }
                     }
                 }
@@ -294,9 +348,9 @@ pub fn programs_for(family: &str, tier: &str) -> Vec<Program> {
                             if o == Call::TickB && !multi {
                                 continue;
                             }
-                            v.push(Program { start_hidden: false, no_len: false, family: "L03", multi, ticker, share: Share::Clone, threads: vec![vec![sus], vec![o]] });
+                            v.push(Program { hz: false, start_hidden: false, no_len: false, family: "L03", multi, ticker, share: Share::Clone, threads: vec![vec![sus], vec![o]] });
                             if thorough {
-                                v.push(Program { start_hidden: false, no_len: false, family: "L03", multi, ticker, share: Share::Clone, threads: vec![vec![sus, Call::Tick], vec![o, o]] });
+                                v.push(Program { hz: false, start_hidden: false, no_len: false, family: "L03", multi, ticker, share: Share::Clone, threads: vec![vec![sus, Call::Tick], vec![o, o]] });
                             }
                         }
                     }
@@ -329,6 +383,8 @@ struct Shared {
     ticks_after_finish: AtomicU64,
     /// steady-tick thread ticks seen when the latest enable_steady_tick call started
     enable_mark: AtomicU64,
+    /// 1 + terminal calls made when another thread saw is_hidden() == true (0 = never seen)
+    hidden_seen_at: AtomicU64,
 }
 
 #[derive(Clone)]
@@ -399,6 +455,38 @@ fn do_call(c: Call, pb: &ProgressBar, w: &World, sh: &Shared) {
             clock::set_step_ns(5_000_000);
             sh.enable_mark.store(sh.ticker_ticks.load(Ordering::SeqCst), Ordering::SeqCst);
             pb.enable_steady_tick(Duration::from_millis(1))
+        }
+        Call::AwaitFrame => {
+            let mark = w.spy.flushes();
+            let mut spins = 0;
+            while w.spy.flushes() == mark {
+                let _ = Instant::now();
+                thread::yield_now();
+                spins += 1;
+                if spins > 300 {
+                    oracle("staleness: redraw requests of the steady ticker arriving long after the last painted frame are not painted (300 yields, 1.5 s of virtual time)".into());
+                }
+            }
+        }
+        Call::ClockBurn => {
+            for _ in 0..200 {
+                let _ = Instant::now();
+            }
+        }
+        Call::ResetEta => pb.reset_eta(),
+        Call::MsgTab => pb.set_message("a\tb"),
+        Call::PrefixTab => pb.set_prefix("p\tq"),
+        Call::TabWidth2 => pb.set_tab_width(2),
+        Call::SetHidden => pb.set_draw_target(ProgressDrawTarget::hidden()),
+        Call::ObserveHidden => {
+            if pb.is_hidden() {
+                sh.hidden_seen_at.store(w.spy.calls() + 1, Ordering::SeqCst);
+            }
+            // the terminal call counter is invisible to loom: touch the MultiProgress lock as well, so
+            // that this observation is ordered both ways against a repaint of the MultiProgress
+            if let Some(mp) = w.mp.as_ref() {
+                let _ = mp.is_hidden();
+            }
         }
         Call::SetTarget => pb.set_draw_target(ProgressDrawTarget::term_like(w.spy.boxed())),
         Call::MpAddSelf => {
@@ -510,6 +598,7 @@ pub fn execute(p: &Program, timeouts: usize, obs: &Obs) {
         violation: Mutex::new(None),
         ticks_after_finish: AtomicU64::new(0),
         enable_mark: AtomicU64::new(0),
+        hidden_seen_at: AtomicU64::new(0),
     });
     let has_enable_call = p.uses_ticker();
     let spy = Spy::new(30, 12, false);
@@ -524,7 +613,7 @@ pub fn execute(p: &Program, timeouts: usize, obs: &Obs) {
         b.tick();
         World { spy: spy.clone(), mp: Some(mp), a: Arc::new(a), b: Some(b) }
     } else {
-        let a = ProgressBar::with_draw_target(len_a, if p.start_hidden { ProgressDrawTarget::hidden() } else { ProgressDrawTarget::term_like(spy.boxed()) }).with_style(style(&sh, !has_enable_call)).with_prefix("a").with_finish(ProgressFinish::AndLeave);
+        let a = ProgressBar::with_draw_target(len_a, if p.start_hidden { ProgressDrawTarget::hidden() } else if p.hz { ProgressDrawTarget::term_like_with_hz(spy.boxed(), 20) } else { ProgressDrawTarget::term_like(spy.boxed()) }).with_style(style(&sh, !has_enable_call)).with_prefix("a").with_finish(ProgressFinish::AndLeave);
         a.tick();
         World { spy: spy.clone(), mp: None, a: Arc::new(a), b: None }
     };
@@ -562,6 +651,22 @@ pub fn execute(p: &Program, timeouts: usize, obs: &Obs) {
     }
     if let Some(v) = sh.violation.lock().unwrap().clone() {
         oracle(v);
+    }
+    // a bar that another thread has seen hidden makes no terminal call afterwards
+    let seen = sh.hidden_seen_at.load(Ordering::SeqCst);
+    if seen > 0 && spy.calls() + 1 != seen {
+        oracle(format!("hidden: terminal operations were made after is_hidden() had returned true :: {} calls when it was seen hidden, {} when all threads were done", seen - 1, spy.calls()));
+    }
+    // texts set while another thread changes the tab width end up expanded with the final width
+    if p.threads.iter().flatten().any(|c| matches!(c, Call::MsgTab | Call::PrefixTab)) {
+        let tw = if p.threads.iter().flatten().any(|c| *c == Call::TabWidth2) { 2 } else { 8 };
+        let all: Vec<Call> = p.threads.iter().flatten().copied().collect();
+        if all.contains(&Call::MsgTab) && world.a.message() != format!("a{}b", " ".repeat(tw)) {
+            oracle(format!("tab: message() is not expanded with the current tab width {tw} :: {:?}", world.a.message()));
+        }
+        if all.contains(&Call::PrefixTab) && world.a.prefix() != format!("p{}q", " ".repeat(tw)) {
+            oracle(format!("tab: prefix() is not expanded with the current tab width {tw} :: {:?}", world.a.prefix()));
+        }
     }
     let all: Vec<Call> = p.threads.iter().flatten().copied().collect();
     let ticker_ticks = sh.ticker_ticks.load(Ordering::SeqCst);
